@@ -55,7 +55,12 @@ class SimRaw(io.RawIOBase):
         return True
 
     def fileno(self):
-        raise io.UnsupportedOperation("simulated file has no fileno")
+        # a fake descriptor, so that os.fsync(f.fileno()) reaches the simulated disk
+        if getattr(self, "_fd", None) is None:
+            self._fd = self.fs.next_fd
+            self.fs.next_fd += 1
+            self.fs.fds[self._fd] = self
+        return self._fd
 
     def isatty(self):
         return False
@@ -129,6 +134,8 @@ class SimFS:
         self.epoch = 0
         self.call_log = []  # (index, name, path, mutating?)
         self._raws = weakref.WeakSet()
+        self.fds = {}  # fake file descriptor -> SimRaw (os.open / os.write / os.close / os.fsync)
+        self.next_fd = 1 << 20
 
     def live_raws(self):
         return [r for r in list(self._raws) if r.epoch == self.epoch]
@@ -339,6 +346,85 @@ class SimFS:
             raise OSError(errno.EIO, "Input/output error", raw.path)
         self.after(f, "close")
 
+    # ------------------------------------------------------------ file descriptors
+    def os_open(self, path, flags, mode=0o777, **k):
+        acc = flags & (os.O_RDONLY | os.O_WRONLY | os.O_RDWR)
+        m = "r" if acc == os.O_RDONLY else ("r+" if acc == os.O_RDWR else "w")
+        p = self.norm(path)
+        if flags & os.O_APPEND:
+            m = "a" if acc != os.O_RDWR else "a+"
+        elif acc != os.O_RDONLY and not (flags & os.O_TRUNC):
+            m = "r+" if p in self.files else ("x" if flags & os.O_CREAT else "r+")
+            if p not in self.files and not (flags & os.O_CREAT):
+                raise FileNotFoundError(errno.ENOENT, "No such file or directory", p)
+        if flags & os.O_EXCL and flags & os.O_CREAT:
+            m = "x"
+        elif p not in self.files and not (flags & os.O_CREAT):
+            raise FileNotFoundError(errno.ENOENT, "No such file or directory", p)
+        raw = self.open(p, m + "b", buffering=0)
+        if "x" in m:
+            raw._writable = True
+        fd = self.next_fd
+        self.next_fd += 1
+        self.fds[fd] = raw
+        return fd
+
+    def fd_raw(self, fd):
+        raw = self.fds.get(fd)
+        if raw is None:
+            raise OSError(errno.EBADF, "Bad file descriptor")
+        return raw
+
+    def os_close(self, fd):
+        raw = self.fd_raw(fd)
+        del self.fds[fd]
+        raw.close()
+
+    def os_fsync(self, fd):
+        raw = self.fd_raw(fd)
+        f = self.io_call("fsync", raw.path)
+        if f and f[0] == "eio":
+            self.faults.hit("eio-fsync")
+            raise OSError(errno.EIO, "Input/output error", raw.path)
+        self.after(f, "fsync")
+
+    def scandir(self, path="."):
+        p = self.norm(path)
+        names = self.listdir(p)
+        fs = self
+
+        class Entry:
+            def __init__(self, name):
+                self.name = name
+                self.path = p + "/" + name
+
+            def is_dir(self, follow_symlinks=True):
+                return self.path in fs.dirs
+
+            def is_file(self, follow_symlinks=True):
+                return self.path in fs.files
+
+            def is_symlink(self):
+                return False
+
+            def stat(self, follow_symlinks=True):
+                return fs.stat(self.path)
+
+            def __fspath__(self):
+                return self.path
+
+        class It(list):
+            def __enter__(self):
+                return self
+
+            def __exit__(self, *a):
+                return False
+
+            def close(self):
+                pass
+
+        return It(Entry(n) for n in names)
+
     # ------------------------------------------------------------ mounting
     def mount(self):
         global _MOUNTED
@@ -392,7 +478,33 @@ def _install_dispatchers():
 
         setattr(os, name, disp)
 
-    for n in ("open", "scandir", "rmdir", "access", "chmod", "truncate", "utime", "link", "symlink", "readlink", "walk"):
+    wrap_os("open", lambda fs, p, flags, mode=0o777, **k: fs.os_open(p, flags, mode))
+    wrap_os("scandir", lambda fs, p=".": fs.scandir(p))
+    wrap_os("access", lambda fs, p, mode, **k: fs.norm(p) in fs.files or fs.norm(p) in fs.dirs)
+
+    def wrap_fd(name, handler):
+        real = getattr(os, name)
+        _REAL["os." + name] = real
+
+        def disp(fd, *a, **k):
+            fs = _MOUNTED
+            if fs is not None and isinstance(fd, int) and fd in fs.fds:
+                return handler(fs, fd, *a, **k)
+            return real(fd, *a, **k)
+
+        disp.__name__ = name
+        setattr(os, name, disp)
+
+    wrap_fd("write", lambda fs, fd, b: fs.fd_raw(fd).write(b))
+    wrap_fd("read", lambda fs, fd, n: (lambda raw, buf: bytes(buf[: raw.readinto(buf)]))(fs.fd_raw(fd), bytearray(n)))
+    wrap_fd("close", lambda fs, fd: fs.os_close(fd))
+    wrap_fd("fsync", lambda fs, fd: fs.os_fsync(fd))
+    wrap_fd("fdatasync", lambda fs, fd: fs.os_fsync(fd))
+    wrap_fd("lseek", lambda fs, fd, pos, how: fs.fd_raw(fd).seek(pos, how))
+    wrap_fd("ftruncate", lambda fs, fd, n: fs.fd_raw(fd).truncate(n))
+    wrap_fd("fstat", lambda fs, fd: fs.stat(fs.fd_raw(fd).path))
+
+    for n in ("rmdir", "chmod", "truncate", "utime", "link", "symlink", "readlink", "walk"):
         if hasattr(os, n):
             unsupported(n)
 
